@@ -58,7 +58,8 @@ pub fn run_forked(
                     libc::close(devnull);
                 }
             }
-            let cpu = libc::rlimit { rlim_cur: CPU_LIMIT_S, rlim_max: CPU_LIMIT_S + 5 };
+            let limit = plan.cpu_limit_s.unwrap_or(CPU_LIMIT_S);
+            let cpu = libc::rlimit { rlim_cur: limit, rlim_max: limit + 5 };
             libc::setrlimit(libc::RLIMIT_CPU, &cpu);
             let mem = libc::rlimit { rlim_cur: MEM_LIMIT, rlim_max: MEM_LIMIT };
             libc::setrlimit(libc::RLIMIT_AS, &mem);
